@@ -292,6 +292,14 @@ def gen_case(rng: random.Random, thorough: bool) -> dict:
                     written = False
                 ops.append(['open', mode, limit])
             continue
+        if rng.random() < 0.04:
+            # a name with one letter beyond ASCII in exactly one of its three parts
+            f, n, e = ident()
+            part = rng.randrange(3)
+            ch = rng.choice('\u00e9\u00df\u0416\u4e2d\u00a0')
+            bent = [f + ch if part == 0 else f, n + ch if part == 1 else n, e + ch if part == 2 else e]
+            ops.append([rng.choice(('add', 'new_write')), bent, form] + write_args() + ['beyond-ascii'])
+            continue
         if r < 0.30 or (not live and r < 0.62):
             i = ident()
             op = 'add' if rng.random() < 0.6 else 'new_write'
@@ -481,6 +489,32 @@ class Exec:
                 def dele():
                     del self.vpk[tgt_name]
                 self.expect_rejected(f'del vpk[{tgt_name!r}]', dele)
+            return
+        if len(op) > 6 and op[6] == 'beyond-ascii':
+            # Either the name is refused (ValueError, nothing changes) or it is a file like any other, which then has to be
+            # listed under exactly this name when the archive is reopened (the ordinary verification of the next reopening).
+            listing = sorted(self.vpk.filenames())
+            try:
+                if kind == 'add':
+                    self.vpk.add_file(nm, data, arch_index=arch)
+                else:
+                    self.vpk.new_file(nm).write(data, arch)
+            except ValueError:
+                self.run.count('names_beyond_ascii_refused')
+                if sorted(self.vpk.filenames()) != listing or sorted(os.listdir(self.dir)) != self._files_before:
+                    self.fail(f'the refused {kind}({nm!r}) still changed the archive', key='refused-name-changed-state')
+                return
+            except CaseAbort:
+                raise
+            except Exception as exc:
+                self.fail(f'{kind}({nm!r}) raised {type(exc).__name__}: {exc}', traceback.format_exc()[-1500:], key='write-raises')
+            self.run.count('names_beyond_ascii_accepted')
+            cname = name_forms(ident)[0]
+            self.canon[key3] = cname
+            self.idents[cname] = list(ident)
+            self.mem[cname] = data
+            self.meta[cname] = {'limit': self.limit, 'arch': arch, 'single': self.single, 'size': len(data),
+                                'forged': False, 'previous': None}
             return
         exists = key3 in self.canon and self.canon[key3] in self.mem
         if kind in ('add', 'new_write'):
@@ -901,4 +935,4 @@ def replay(run, data) -> None:
 
 
 # (kept at the end of the file so that the text above stays the description the check was first built to)
-RULE += ' ' + "Later additions: dir_data_limit 65535 / 65536 / 100000, also set through the dir_limit attribute of the open archive; dotted folder and file names; other spellings of the folder (trailing '/', './', doubled and backward slashes) in every name form; forged overwrites with equal CRC32 and equal length."
+RULE += ' ' + "Later additions: dir_data_limit 65535 / 65536 / 100000, also set through the dir_limit attribute of the open archive; dotted folder and file names; other spellings of the folder (trailing '/', './', doubled and backward slashes) in every name form; forged overwrites with equal CRC32 and equal length. A name with one letter beyond ASCII in one of its three parts is either refused with ValueError leaving the archive as it was, or has to be listed under exactly that name after reopening."
